@@ -9,6 +9,7 @@
            obligations (gen_well_locked, ...) are closed there by vm_compute; here they are fed to part 2. *)
 From Coq Require Import Relations.
 From Relay Require Import Base.Prelude Model.LockIR Proofs.LockIR_proofs Gen.LockGen.
+From Relay Require Import Model.SerialEq Proofs.SerialEq_proofs.
 
 (* ------------------------------------------------------------------ part 1: generic *)
 Section Generic.
@@ -81,11 +82,10 @@ Section Generic.
                        sec_cont leqb guard ph' k' = true /\ phase_locks ph' ls'.
   Proof. exact (single_section_trace leqb leqb_spec guard rank nb ord). Qed.
 
-  (* per-object atomicity. FULL STATEMENT aimed at (value-level serial equivalence: every execution can be
-     reordered, keeping each thread's own trace, into one where every critical section is contiguous, with the
-     same final store values) is NOT proved - the IR carries no values. Proved: while a single-section thread is
-     inside its section on m, no other thread writes a field of m, and none reads one unless the section is shared. *)
-  Theorem C12_single_section_atomic_partial :
+  (* per-object atomicity at the level of the lock IR (which carries no values): while a single-section thread is
+     inside its section on m, no other thread writes a field of m, and none reads one unless the section is shared.
+     The VALUE-level statement (same answers and final state as a one-at-a-time execution) is part 4 below. *)
+  Theorem C12_single_section_atomic :
     forall p tr p1 i ls k j e p2 m,
     inv leqb guard rank nb ord p -> exec leqb jump p tr p1 -> no_jump i tr ->
     nth_error p i = Some (ls, k) -> sec_cont leqb guard Before k = true -> ls = [] ->
@@ -102,7 +102,7 @@ Print Assumptions C12_shared_section_sees_no_write.
 Print Assumptions C12_no_block_while_locked.
 Print Assumptions C12_lock_order_no_wait_cycle.
 Print Assumptions C12_single_section_trace.
-Print Assumptions C12_single_section_atomic_partial.
+Print Assumptions C12_single_section_atomic.
 
 (* ------------------------------------------------------------------ part 2: any program over the relay's guard table *)
 (* [reach nb ord prog q]: q is reachable from a pool of ANY number of threads, each running ANY function of
@@ -196,7 +196,7 @@ Proof.
 Qed.
 Print Assumptions C12_relay_store_methods_single_section.
 
-Theorem C12_relay_store_methods_atomic_partial :
+Theorem C12_relay_store_methods_atomic :
   forall p tr p1 i name body rho j e p2 m,
   runs LockGen.prog p ->
   In (name, body) LockGen.prog -> In name LockGen.store_methods -> injective rho ->
@@ -211,7 +211,96 @@ Proof.
            prog_single_section_atomic_partial LockGen.store_methods LockGen.prog p tr p1 i name body rho j e p2 m
              gen_well_locked gen_single_section).
 Qed.
-Print Assumptions C12_relay_store_methods_atomic_partial.
+Print Assumptions C12_relay_store_methods_atomic.
+
+(* ------------------------------------------------------------------ part 4: value-level serial equivalence *)
+(* The sentence of the property: "the relay's answers and final state are those of some one-at-a-time ordering of
+   the same operations". Model (Model/SerialEq.v): a set of locks, each protecting one object with a state; an
+   operation is ONE critical section on ONE lock whose body is a deterministic function [upd] of the object's state
+   (new state, result); a thread is a list of operations; any schedule; Acq m enabled iff nobody holds m.
+
+   WHAT LINKS THIS TO THE CODE (hypotheses of the composition, each discharged elsewhere):
+   (H1) every exported method of CodeStore, deny.Store, chanmap.Store IS such an operation: one critical section
+        on its own store's mutex containing all its accesses to guarded fields, and nothing else shared is touched
+        - [gen_single_section] + [gen_well_locked] on the IR regenerated from the source (part 3, and
+        C12_relay_store_methods_single_section / _atomic: nobody else touches the object while the section runs);
+   (H2) sync.Mutex is exclusive and not re-entrant (the interleaving semantics of Model/LockIR.v and of this model);
+   (H3) the effect of each method's body on its object is the deterministic step function of the hand-written
+        models coq/Model/CodeStore.v (C02), DenyStore.v (C10), ChanMap.v (C08): [upd] is NOT extracted from the
+        source, it is tied to it by those properties' correspondence runs (clock and uuid are oracles there).
+   C12 supplies atomicity (H1, H2), those properties supply the sequential semantics (H3); the theorem below is the
+   composition. NOT covered: a formal refinement from the lock-IR semantics to this operation-level model (H1 is
+   used as the modelling step); operations that are not a single section (Hub.GetStats: nested shared sections;
+   request handlers: a SEQUENCE of store operations - for those the theorem gives exactly this: the individual
+   store operations of all concurrent requests are linearizable in one total order that keeps each request's own
+   order, but a handler as a whole is not atomic; request-level atomicity against a racing deny is C07). *)
+Section Value.
+  Context {Lk Op St Res : Type}.
+  Variable lk_eqb : Lk -> Lk -> bool.
+  Hypothesis lk_eqb_spec : forall a b, lk_eqb a b = true <-> a = b.
+  Variable upd : Lk -> Op -> St -> St * Res.
+
+  (* for every schedule that runs all threads to completion, with lin := the calls in the order of their Acq steps:
+     (1) lin consists of every thread's program, in program order;
+     (2) every object ends in the state the one-at-a-time execution of lin leaves it in;
+     (3) per object, the bodies ran in the order of lin and returned what the one-at-a-time execution returns;
+     (4) so every operation received exactly the result it receives in the one-at-a-time execution of lin. *)
+  Theorem C12_serial_equivalence :
+    forall progs s0 sched (s : @state Lk Op St Res),
+    run lk_eqb upd sched (init progs s0) = Some s -> finished s = true ->
+    (forall i p, nth_error progs i = Some p -> by_thread i (acqs s) = mkcalls i 0 p) /\
+    (forall m, st s m = fst (serial lk_eqb upd (acqs s) s0) m) /\
+    (forall m, ret_on lk_eqb m (hist s) = ret_on lk_eqb m (snd (serial lk_eqb upd (acqs s) s0))) /\
+    (forall x, In x (hist s) <-> In x (snd (serial lk_eqb upd (acqs s) s0))).
+  Proof. exact (serial_equivalence lk_eqb lk_eqb_spec upd). Qed.
+
+  (* with the linearization point at the body instead of the Acq, at EVERY moment (not only at the end) the
+     objects and the history are literally those of the one-at-a-time execution of the bodies applied so far *)
+  Theorem C12_serial_equivalence_body_order :
+    forall progs s0 sched (s : @state Lk Op St Res),
+    run lk_eqb upd sched (init progs s0) = Some s ->
+    (forall m, st s m = fst (serial lk_eqb upd (map fst (hist s)) s0) m) /\
+    hist s = snd (serial lk_eqb upd (map fst (hist s)) s0).
+  Proof. exact (serial_equivalence_body_order lk_eqb lk_eqb_spec upd). Qed.
+
+  (* locality (Herlihy-Wing): what a one-at-a-time execution does to the object of m and returns to the operations
+     on m depends only on the operations on m and their order - sections on different locks commute. Hence ANY total
+     order that agrees with the per-object orders is as good as lin: per-object linearizability composes. *)
+  Theorem C12_serial_locality :
+    forall m (l1 l2 : list (@call Lk Op)) (s0 : Lk -> St),
+    on_lock lk_eqb m l1 = on_lock lk_eqb m l2 ->
+    fst (serial lk_eqb upd l1 s0) m = fst (serial lk_eqb upd l2 s0) m /\
+    ret_on lk_eqb m (snd (serial lk_eqb upd l1 s0)) = ret_on lk_eqb m (snd (serial lk_eqb upd l2 s0)).
+  Proof. exact (serial_locality lk_eqb lk_eqb_spec upd). Qed.
+
+  Theorem C12_value_at_most_one_holder :
+    forall progs s0 sched (s : @state Lk Op St Res) i j ti tj m,
+    run lk_eqb upd sched (init progs s0) = Some s ->
+    nth_error (thr s) i = Some ti -> nth_error (thr s) j = Some tj ->
+    holdsb lk_eqb m ti = true -> holdsb lk_eqb m tj = true -> i = j.
+  Proof. exact (at_most_one_holder lk_eqb lk_eqb_spec upd). Qed.
+End Value.
+Print Assumptions C12_serial_equivalence.
+Print Assumptions C12_serial_equivalence_body_order.
+Print Assumptions C12_serial_locality.
+Print Assumptions C12_value_at_most_one_holder.
+
+(* non-vacuity: three threads, two objects (fetch-and-add returning the old value), a schedule in which the sections
+   on the two locks overlap and threads wait for each other; it runs to completion and the outcome is the serial one *)
+Definition ex_upd (_ : nat) (o : N) (s : N) : N * N := ((s + o)%N, s).
+Definition ex_progs : list (list (nat * N)) := [[(0, 1%N); (1, 10%N)]; [(0, 5%N)]; [(1, 7%N); (0, 2%N)]].
+Definition ex_sched : list nat := [0;2;0;2;0;1;2;0;1;0;1;2;0;2;2].
+Example C12_serial_witness :
+  match run Nat.eqb ex_upd ex_sched (init ex_progs (fun _ => 0%N)) with
+  | Some s =>
+      (finished s, st s 0, st s 1, map (fun x => (c_tid (fst x), c_lock (fst x), snd x)) (hist s),
+       map (fun c => (c_tid c, c_lock c)) (acqs s),
+       map snd (snd (serial Nat.eqb ex_upd (acqs s) (fun _ => 0%N))))
+  | None => (false, 0%N, 0%N, [], [], [])
+  end
+  = (true, 8%N, 17%N, [(0, 0, 0%N); (2, 1, 0%N); (1, 0, 1%N); (0, 1, 7%N); (2, 0, 6%N)],
+     [(0, 0); (2, 1); (1, 0); (0, 1); (2, 0)], [0%N; 0%N; 1%N; 7%N; 6%N]).
+Proof. vm_compute. reflexivity. Qed.
 
 (* ------------------------------------------------------------------ non-vacuity *)
 (* an injective instantiation exists; a well-locked two-function program has a concrete execution reaching a pool
